@@ -1,7 +1,7 @@
 (* C08 -- The No-U-Turn sampler leaves its target invariant: the orbit kernel is doubly stochastic at every depth, the
    slice clause for the whole transition, and the lift from one unbounded orbit to CLOSED orbits (finite state spaces:
    trajectories that wrap around).  Property theorems only (exact + Print Assumptions). *)
-From CV Require Import Base.Tac Base.Cmp Base.Ext Base.LinAlg Base.QcLin Model.C08_NUTS.
+From CV Require Import Base.Tac Base.Cmp Base.Ext Base.LinAlg Base.QcLin Model.C08_NUTS Model.C08_Kernel.
 From CV Require Import Proofs.C08_Prog Proofs.C08_Tree Proofs.C08_Top Proofs.C08_Law Proofs.C08_Orbit Proofs.C08_Block Proofs.C08_Alive
                        Proofs.C08_Sim Proofs.C08_LeapD Proofs.C08_Cycle Proofs.C08_SliceTop Proofs.C08_Closed.
 From Coq Require Import QArith Qcanon.
@@ -166,6 +166,28 @@ Proof.
   exact (concrete_closed_orbit_stationary t d guard heps x z u N Hw Hx Hz Npos Hc Hm Hf md a k0 Hk).
 Qed.
 Print Assumptions C08_concrete_closed_orbit_stationary.
+
+(* ... in the form the closed-orbit cells of the correspondence instantiate: `check_cycle t heps x z N = true` is evaluated by
+   the kernel on the inputs of every such cell (the model's orbit through the start closes after exactly N steps), the
+   target is a Gaussian / any well-formed target of dimension length x, the log-density is finite on the orbit *)
+Theorem C08_concrete_closed_orbit_checked :
+  forall (t : target) (guard : bool) (heps : Qc) (x z : list Q) (u : Q) (N : nat),
+  wf_target t (length x) -> check_cycle t heps x z N = true ->
+  let s0 := c_init t (qvec x) (qvec z) in
+  let phi := orb cstate (c_leap t heps) s0 in
+  guard = false \/ (forall i, finite_logd cstate (c_lgd t) (phi i) = true) ->
+  forall (max_depth : nat) (a k0 : Z), in_slice cstate (c_ham t) (Fin u) (phi k0) = true ->
+  (qs (fun i => if in_slice cstate (c_ham t) (Fin u) (phi i)
+                then dist (transition cstate (c_leap t heps) (c_ham t) (c_lgd t) c_uturn_ok (fun _ => 0%Q) (Fin u) guard max_depth (phi i))
+                          (fun tp => b2q (cs_eqb (p_cur tp) (phi k0)))
+                else 0) (zr a N) == 1)%Q.
+Proof.
+  intros t guard heps x z u N Hw Hc s0 phi Hf md a k0 Hk.
+  destruct (check_cycle_sound t heps x z N Hc) as (Npos & Hl & Hclose & Hmin).
+  assert (Hx : length (qvec x) = length x) by (unfold qvec; apply map_length).
+  exact (concrete_closed_orbit_stationary t (length x) guard heps (qvec x) (qvec z) u N Hw Hx (eq_trans (eq_sym Hl) Hx) Npos Hclose Hmin Hf md a k0 Hk).
+Qed.
+Print Assumptions C08_concrete_closed_orbit_checked.
 
 (* ---- non-vacuity ------------------------------------------------------------------------------------------------ *)
 (* N(0, 1/2) with step size 1 (heps = 1/2), started at x = 1 with momentum 1/2: the leapfrog map has order 4, the orbit is
